@@ -469,12 +469,15 @@ def check_sessions(ctx, name, sessions, results, refs, chunk=60):
 
 
 def matches_variant(ctx, name, session, result, refs):
-    """Which named alternative of the model reproduces the whole session: 'pinned' (restore only after success),
-    'repaired' (content-keyed cache), or None."""
-    terms = [session_term('session_matches', False, session, result, refs)[0],
-             session_term('session_matches_repaired', True, session, result, refs)[0]]
-    bad = fw.kernel_bools(ctx, name, ['Model.Process'], terms, open_scope='nat_scope')
-    return 'pinned' if 0 not in bad else ('repaired' if 1 not in bad else None)
+    """Which named alternative of the model reproduces the whole session: 'pinned' (restore only after success), or a
+    REPAIRED variant (proved sound in Coq): 'content-keyed cache', 'request path opened in the caller\'s directory',
+    or both; None = none of them."""
+    variants = [('pinned', 'session_matches', False), ('repaired: content-keyed cache', 'session_matches_repaired', True),
+                ('repaired: request path opened in the caller\'s directory', 'session_matches_callerdir', False),
+                ('repaired: content-keyed cache and request path opened in the caller\'s directory', 'session_matches_callerdir', True)]
+    terms = [session_term(fn, flag, session, result, refs)[0] for _n, fn, flag in variants]
+    bad = set(fw.kernel_bools(ctx, name, ['Model.Process'], terms, open_scope='nat_scope'))
+    return next((n for k, (n, _f, _g) in enumerate(variants) if k not in bad), None)
 
 
 # ------------------------------------------------------------------------------------------------------------
